@@ -814,6 +814,18 @@ func sprintf(fr *frame, format string, a []value) (value, value) {
 		if verb == 'w' {
 			wrapped = arg
 		}
+		if verb == 'T' {
+			name := "<nil>"
+			if ifc, ok := arg.(iface); ok && ifc.t != nil {
+				name = types.TypeString(ifc.t, func(p *types.Package) string { return p.Name() })
+			}
+			out = append(out, toSstr(name)...)
+			continue
+		}
+		if r, ok := fmtScalar(fr, spec, verb, arg); ok {
+			out = append(out, toSstr(r)...)
+			continue
+		}
 		if r, ok := fmtSpec(spec, verb, arg); ok {
 			out = append(out, toSstr(r)...)
 			continue
@@ -828,6 +840,28 @@ func sprintf(fr *frame, format string, a []value) (value, value) {
 		}
 	}
 	return normStr(out), wrapped
+}
+
+// fmtScalar: a concrete scalar operand goes through the real fmt with the verb and flags as written, unless
+// the verb is one that prints through the operand's Error or String method.
+func fmtScalar(fr *frame, spec string, verb byte, arg value) (value, bool) {
+	if ifc, ok := arg.(iface); ok {
+		if ifc.t == nil {
+			return nil, false
+		}
+		if strings.IndexByte("vsqw", verb) >= 0 && (findMethod(fr.i, ifc.t, "Error") != nil || findMethod(fr.i, ifc.t, "String") != nil) {
+			return nil, false
+		}
+		arg = ifc.v
+	}
+	if verb == 'w' {
+		verb = 'v'
+	}
+	switch x := arg.(type) {
+	case int, int8, int16, int32, int64, uint, uint8, uint16, uint32, uint64, uintptr, float32, float64, string, bool:
+		return fmt.Sprintf("%"+spec+string(verb), x), true
+	}
+	return nil, false
 }
 
 // fmtSpec handles verbs with flags/width on scalars: concrete values go through the real fmt, a symbolic
@@ -885,32 +919,81 @@ func extErrorf(fr *frame, args []value) value {
 }
 
 func extErrorsIs(fr *frame, args []value) value {
-	err, target := args[0].(iface), args[1].(iface)
-	for n := 0; n < 20; n++ {
-		if err.t == nil {
-			return target.t == nil
+	return errorsIs(fr, args[0].(iface), args[1].(iface), 0)
+}
+
+// errMethod finds a method of the dynamic type of err by name and shape.
+func errMethod(fr *frame, err iface, name string, params, results int) *ssa.Function {
+	ms := fr.i.prog.MethodSets.MethodSet(err.t)
+	for k := 0; k < ms.Len(); k++ {
+		if ms.At(k).Obj().Name() == name {
+			sig := ms.At(k).Type().(*types.Signature)
+			if sig.Params().Len() == params && sig.Results().Len() == results {
+				return fr.i.prog.MethodValue(ms.At(k))
+			}
 		}
-		if target.t != nil && sameType(err.t, target.t) {
-			if b, ok := equalsV(err.t, err.v, target.v).(bool); ok && b {
+	}
+	return nil
+}
+
+// unwrapAll returns what err wraps: the result of Unwrap() error, or the elements of Unwrap() []error.
+func unwrapAll(fr *frame, err iface) []iface {
+	f := errMethod(fr, err, "Unwrap", 0, 1)
+	if f == nil {
+		return nil
+	}
+	switch r := call(fr.i, fr, token.NoPos, f, []value{err.v}).(type) {
+	case iface:
+		return []iface{r}
+	case []value:
+		out := []iface{}
+		for _, e := range r {
+			if ei, ok := e.(iface); ok {
+				out = append(out, ei)
+			}
+		}
+		return out
+	}
+	return nil
+}
+
+// errorsIs follows errors.Is: equality when comparable, an Is(error) bool method, then the wrapped errors
+// depth-first.
+func errorsIs(fr *frame, err, target iface, depth int) bool {
+	if err.t == nil || target.t == nil {
+		return err.t == nil && target.t == nil
+	}
+	if depth > 20 {
+		return false
+	}
+	if sameType(err.t, target.t) && types.Comparable(err.t) {
+		if b, ok := equalsV(err.t, err.v, target.v).(bool); ok {
+			if b {
 				return true
 			}
+		} else if equals(err.t, err.v, target.v) {
+			return true
 		}
-		ms := fr.i.prog.MethodSets.MethodSet(err.t)
-		var unwrap *ssa.Function
-		for k := 0; k < ms.Len(); k++ {
-			if ms.At(k).Obj().Name() == "Unwrap" {
-				unwrap = fr.i.prog.MethodValue(ms.At(k))
-			}
+	}
+	if f := errMethod(fr, err, "Is", 1, 1); f != nil {
+		if r := call(fr.i, fr, token.NoPos, f, []value{err.v, target}); truth(fr, r) {
+			return true
 		}
-		if unwrap == nil {
-			return false
+	}
+	for _, w := range unwrapAll(fr, err) {
+		if w.t != nil && errorsIs(fr, w, target, depth+1) {
+			return true
 		}
-		r := call(fr.i, fr, token.NoPos, unwrap, []value{err.v})
-		ri, ok := r.(iface)
-		if !ok {
-			return false
-		}
-		err = ri
+	}
+	return false
+}
+
+func truth(fr *frame, v value) bool {
+	switch b := v.(type) {
+	case bool:
+		return b
+	case *sym:
+		return fr.i.cond(b)
 	}
 	return false
 }
@@ -1131,6 +1214,11 @@ func extAtoi(fr *frame, args []value) value {
 			return tuple{0, mkErr(err.Error())}
 		}
 		return tuple{n, iface{}}
+	case numstr:
+		if s.n.w == 64 {
+			return tuple{&sym{e: s.n.e, k: symBV, w: 64, gk: types.Int, origin: s.n.origin, ow: s.n.ow}, iface{}}
+		}
+		panic(unsupported("Atoi of the text of a narrow symbolic integer"))
 	case sstr:
 		// decide digit-ness bytewise (sign handled only for all-digit strings)
 		if len(s) == 0 {
@@ -1327,22 +1415,6 @@ func ndItoa(fr *frame, args []value) value {
 	panic("Itoa")
 }
 
-func unwrapErr(fr *frame, err iface) (iface, bool) {
-	ms := fr.i.prog.MethodSets.MethodSet(err.t)
-	for k := 0; k < ms.Len(); k++ {
-		if ms.At(k).Obj().Name() == "Unwrap" {
-			f := fr.i.prog.MethodValue(ms.At(k))
-			if f.Signature.Results().Len() != 1 {
-				return iface{}, false
-			}
-			r := call(fr.i, fr, token.NoPos, f, []value{err.v})
-			ri, ok := r.(iface)
-			return ri, ok
-		}
-	}
-	return iface{}, false
-}
-
 func extErrorsAs(fr *frame, args []value) value {
 	err := args[0].(iface)
 	tgt := args[1].(iface)
@@ -1353,23 +1425,32 @@ func extErrorsAs(fr *frame, args []value) value {
 	if !ok {
 		panic("errors: target must be a non-nil pointer")
 	}
-	T := pt.Elem()
-	dst := tgt.v.(*value)
-	for n := 0; n < 20 && err.t != nil; n++ {
-		if it, isI := T.Underlying().(*types.Interface); isI {
-			if types.Implements(err.t, it) {
-				*dst = err
-				return true
-			}
-		} else if types.Identical(err.t, T) {
-			*dst = err.v
+	return errorsAs(fr, err, tgt, pt.Elem(), tgt.v.(*value), 0)
+}
+
+// errorsAs follows errors.As: assignability, an As(any) bool method, then the wrapped errors depth-first.
+func errorsAs(fr *frame, err, tgt iface, T types.Type, dst *value, depth int) bool {
+	if err.t == nil || depth > 20 {
+		return false
+	}
+	if it, isI := T.Underlying().(*types.Interface); isI {
+		if types.Implements(err.t, it) {
+			*dst = err
 			return true
 		}
-		next, ok := unwrapErr(fr, err)
-		if !ok {
-			return false
+	} else if types.Identical(err.t, T) {
+		*dst = err.v
+		return true
+	}
+	if f := errMethod(fr, err, "As", 1, 1); f != nil {
+		if r := call(fr.i, fr, token.NoPos, f, []value{err.v, tgt}); truth(fr, r) {
+			return true
 		}
-		err = next
+	}
+	for _, w := range unwrapAll(fr, err) {
+		if errorsAs(fr, w, tgt, T, dst, depth+1) {
+			return true
+		}
 	}
 	return false
 }
